@@ -19,7 +19,8 @@ SHARDS = {'quick': 8, 'thorough': 16}
 MIN_NONTRIVIAL = {'quick': 1500, 'thorough': 50000}
 REQUIRED_CLASSES = ['table-keyed', 'table-list', 'rows-list', 'rows-array', 'grid', 'grid-transposed', 'combination',
                     'rows-sort', 'table-delete', 'table-overwrite', 'table-reinsert', 'table-positional-after-delete',
-                    'table-empty-keyed', 'table-empty-list', 'table-emptied-by-delete']
+                    'table-empty-keyed', 'table-empty-list', 'table-emptied-by-delete',
+                    'combination-items:duplicates', 'combination-items:numbers', 'combination-items:mixed', 'combination-items:numpy']
 REQUIRED_MONITORS = ['table_state_compares', 'rows_state_compares', 'grid_cells_checked', 'combination_tuples_checked']
 ASSUMPTIONS = ['keys are strings that are not attribute names of the class',
                'row-collector columns are type-homogeneous scalars representable in the declared dtype',
@@ -56,6 +57,9 @@ def cases(rng, tier, shard, nshards, ctx):
             i += 1
             if i % nshards == shard:
                 yield dict(t='comb', shape=list(shape))
+                if k >= 1 and max(shape) >= 2:
+                    # the same shape once more with item lists that hold equal elements, numbers, tuples and arrays
+                    yield dict(t='comb', shape=list(shape), variety=rng.choice(['duplicates', 'numbers', 'mixed', 'numpy']))
     for _ in range(N['table'] // nshards):
         yield gen_table(rng)
     for _ in range(N['rows'] // nshards):
@@ -204,22 +208,39 @@ def run_comb(case, ctx):
     snt = ctx['snt']
     shape = case['shape']
     lists = [['i%d_%d' % (a, b) for b in range(m)] for a, m in enumerate(shape)]
+    var = case.get('variety')
+    classes = ['combination']
+    if var == 'duplicates':
+        lists = [[('i%d_%d' % (a, b % 2)) for b in range(m)] for a, m in enumerate(shape)]          # x, y, x, y
+    elif var == 'numbers':
+        lists = [[[10, 20, 10, 0.5][b % 4] for b in range(m)] for a, m in enumerate(shape)]
+    elif var == 'mixed':
+        lists = [[[0, 1, True, 0.0, 'a', (1, 2)][(a + b) % 6] for b in range(m)] for a, m in enumerate(shape)]    # 1 == True, 0 == 0.0
+    elif var == 'numpy':
+        import numpy as np
+        lists = [np.array([b * 1.5 for b in range(m)]) for a, m in enumerate(shape)]
+    if var:
+        classes.append('combination-items:' + var)
     dc = snt.DataCombination(lists)
     keys, values, items = list(dc.keys()), list(dc.values()), list(dc.items())
     exp_keys = list(itertools.product(*[range(m) for m in shape]))
-    exp_vals = list(itertools.product(*lists))
+    exp_vals = list(itertools.product(*[list(l) for l in lists]))
     devs = []
+
+    def ident(t):
+        # values are compared by identity of type and value (1 and True are different items)
+        return tuple((type(x).__name__, repr(x)) for x in t)
     if [tuple(k) for k in keys] != exp_keys:
         devs.append(dev('comb-keys', dict(got=keys[:5], expected=exp_keys[:5])))
-    if [tuple(v) for v in values] != exp_vals:
-        devs.append(dev('comb-values', dict(got=values[:5], expected=exp_vals[:5])))
-    if [(tuple(k), tuple(v)) for k, v in items] != list(zip(exp_keys, exp_vals)):
-        devs.append(dev('comb-items', dict(got=items[:5])))
+    if [ident(v) for v in values] != [ident(v) for v in exp_vals]:
+        devs.append(dev('comb-values', dict(got=repr(values[:5]), expected=repr(exp_vals[:5]))))
+    if [(tuple(k), ident(v)) for k, v in items] != [(k, ident(v)) for k, v in zip(exp_keys, exp_vals)]:
+        devs.append(dev('comb-items', dict(got=repr(items[:5]), expected=repr(list(zip(exp_keys, exp_vals))[:5]))))
     for k, v in items:
-        if tuple(lists[a][k[a]] for a in range(len(shape))) != tuple(v):
-            devs.append(dev('comb-index-mismatch', dict(k=k, v=v)))
+        if ident(tuple(lists[a][k[a]] for a in range(len(shape)))) != ident(tuple(v)):
+            devs.append(dev('comb-index-mismatch', dict(k=repr(k), v=repr(v))))
             break
-    return outcome(classes=['combination'], nontrivial=len(shape) >= 2, fp='comb %r' % shape, dev=devs,
+    return outcome(classes=classes, nontrivial=len(shape) >= 2, fp='comb %r %s' % (shape, var), dev=devs,
                    monitors={'combination_tuples_checked': len(items) + len(keys) + len(values)},
                    sample=dict(shape=shape, n=len(items), first=[list(map(list, x)) for x in items[:2]]))
 
